@@ -26,6 +26,8 @@ type c10Mon struct {
 	ctxs   map[int]context.Context // scope -> the context handed out
 	errs   []string
 	mu     sync.Mutex
+	// contexts handed out to Cleanup functions: all of them are over
+	cleanupCtxs []context.Context
 }
 
 func (m *c10Mon) ev(kind string, scope, id int) {
@@ -111,6 +113,11 @@ func (m *c10Mon) check() {
 			m.bad("scope %d: context still live after the run", sc)
 		}
 	}
+	for _, ctx := range m.cleanupCtxs {
+		if ctx.Err() == nil {
+			m.bad("a context handed out to a Cleanup function is still live after the run")
+		}
+	}
 }
 
 // useCtx samples T.Context() inside a call.
@@ -125,6 +132,16 @@ func (m *c10Mon) useCtx(t *rapid.T, scope, where int) {
 	} else {
 		m.ev("ctxlive", scope, where)
 	}
+}
+
+// ctxInCleanup samples T.Context() from inside a Cleanup function: the call is over, the context it gets is
+// cancelled, and nothing live is left behind for later.
+func (m *c10Mon) ctxInCleanup(t *rapid.T, scope int) {
+	c := t.Context()
+	if c.Err() == nil {
+		m.bad("scope %d: Context() requested inside a cleanup is live", scope)
+	}
+	m.cleanupCtxs = append(m.cleanupCtxs, c)
 }
 
 func (m *c10Mon) reg(t *rapid.T, scope, id int, body func()) {
@@ -170,6 +187,25 @@ func c10Perform(t *rapid.T, m *c10Mon, scope int, b Beh, msg string) {
 			}
 		})
 		m.reg(t, scope, 2, nil)
+	case BRcpCtxOnlyInCleanup:
+		// the body never asks for the context; a Cleanup function does, and gets a cancelled one
+		m.reg(t, scope, 1, func() { m.ctxInCleanup(t, scope) })
+		m.reg(t, scope, 2, nil)
+	case BRcpPanicThenCtxInOlderCleanup:
+		m.useCtx(t, scope, 1)
+		m.reg(t, scope, 1, func() { m.ctxInCleanup(t, scope) })
+		m.reg(t, scope, 2, func() { panic("boom in cleanup " + msg) })
+	case BRcpSkipThenCtxInOlderCleanup:
+		m.useCtx(t, scope, 1)
+		m.reg(t, scope, 1, func() { m.ctxInCleanup(t, scope) })
+		m.reg(t, scope, 2, func() { t.Skip("skip from cleanup " + msg) })
+	case BRcpOldestRegistersThenPanics:
+		m.reg(t, scope, 1, func() { m.reg(t, scope, 2, nil); panic("boom in cleanup " + msg) })
+	case BRcpOldestRegistersThenSkips:
+		m.reg(t, scope, 1, func() { m.reg(t, scope, 2, nil); t.SkipNow() })
+	case BRcpOldestRegistersThenFatal:
+		m.useCtx(t, scope, 1)
+		m.reg(t, scope, 1, func() { m.reg(t, scope, 2, func() { m.ctxInCleanup(t, scope) }); t.Fatalf("fatal in cleanup: %s", msg) })
 	case BRcpThenFatal:
 		m.reg(t, scope, 1, nil)
 		m.useCtx(t, scope, 1)
@@ -279,7 +315,7 @@ func c10Perform(t *rapid.T, m *c10Mon, scope int, b Beh, msg string) {
 	}
 }
 
-var c10Alpha = []Beh{BRcpNone, BRcp1, BRcp3, BRcpNested, BRcpPanicMid, BRcpErrorfMid, BRcpCtxInCleanup, BRcpThenFatal, BRcpThenSkip, BRcpThenPanic, BRcpThenErrorf, BRcpCustom, BRcpCustomSkip, BRcpGoroutineCleanup, BRcpCustomFatal, BRcpCustomPanic, BRcpCleanupSkips, BRcpSkipWithCleanupErrorf, BRcpTwoPanickingCleanups, BRcpFatalAndSkipCleanups, BRcpThreeAbnormalCleanups, BRcpNilCleanup, BRcpCustomDrawnInCleanup}
+var c10Alpha = []Beh{BRcpNone, BRcp1, BRcp3, BRcpNested, BRcpPanicMid, BRcpErrorfMid, BRcpCtxInCleanup, BRcpThenFatal, BRcpThenSkip, BRcpThenPanic, BRcpThenErrorf, BRcpCustom, BRcpCustomSkip, BRcpGoroutineCleanup, BRcpCustomFatal, BRcpCustomPanic, BRcpCleanupSkips, BRcpSkipWithCleanupErrorf, BRcpTwoPanickingCleanups, BRcpFatalAndSkipCleanups, BRcpThreeAbnormalCleanups, BRcpNilCleanup, BRcpCustomDrawnInCleanup, BRcpCtxOnlyInCleanup, BRcpPanicThenCtxInOlderCleanup, BRcpSkipThenCtxInOlderCleanup, BRcpOldestRegistersThenPanics, BRcpOldestRegistersThenSkips, BRcpOldestRegistersThenFatal}
 
 func c10Prog(m func() *c10Mon, T int16) *LazyProgram {
 	return &LazyProgram{
